@@ -245,6 +245,36 @@ def v3(run, ven):
            any(isinstance(n, ast.If) and u(n.test).replace(' ', '') == 'fbitsize>=0' and isinstance(n.body[0], ast.Continue) for n in ast.walk(lc)), ven.where(lc))
 
 
+def v4(run, ven):
+    """the C helper functions that both runtime headers carry (the one embedded in vengine_cpy.py for verify(), and
+    _cffi_include.h for set_source()) have the same bodies, statement by statement (clang AST of both)"""
+    from ..cast.loader import parse_tu, py_include, repo_root, wrapper_tu
+    from ..cast import cx
+    from ..cast.cfg import CFG, stmt_text
+    hdr = None
+    for node in ven.tree.body:
+        if isinstance(node, ast.Assign) and any(isinstance(t, ast.Name) and t.id == 'cffimod_header' for t in node.targets):
+            try:
+                hdr = ast.literal_eval(node.value)
+            except Exception:
+                hdr = None
+    run.need(isinstance(hdr, str), 'cffimod_header string not found in vengine_cpy.py')
+    tu = parse_tu(hdr, ['-I' + py_include(), '-DNDEBUG'], root=repo_root(), is_text=True, tag='vengine_hdr', virtual_name='vengine_hdr.c')
+    w = wrapper_tu()
+    differ_by_design = {'_cffi_init': 'the two kinds of module are initialised through different backend entry points'}
+    shared = sorted(n for n in tu.functions if tu.has_func(n) and w.has_func(n) and n.startswith('_cffi_') and n not in differ_by_design)
+    run.need(len(shared) >= 2, 'no helper function is defined in both headers (found %s)' % shared)
+    for name in shared:
+        def seq(t):
+            g = CFG(t.func(name), t)
+            return [(n.kind, stmt_text(n.ast)) for n in sorted(g.nodes, key=lambda x: -x.id) if n.ast is not None]
+        a, b = seq(tu), seq(w)
+        diff = next(((x, y) for x, y in zip(a, b) if x != y), None) or ((len(a), len(b)) if len(a) != len(b) else None)
+        run.ob('V4/shared-runtime-helpers-are-identical', name, 'vengine_cpy.cffimod_header ~ _cffi_include.h', diff is None, 'src/cffi/vengine_cpy.py',
+               'first difference (verify header / set_source header): %r' % (diff,))
+    run.saw('helpers defined in both headers', shared)
+
+
 def check(run):
     run.technique = ('sibling cross-check of the two C generators (set_source: Recompiler; verify: VCPythonEngine): both are walked symbolically '
                      '(Python ast, abstract types of every class, nothing executed) and the emitted wrapper text, conversions and layout tables are compared; '
@@ -254,8 +284,9 @@ def check(run):
     v1(run, rec, ven)
     v2(run, rec, ven)
     v3(run, ven)
+    v4(run, ven)
     run.assume('decided: that the CPython verify engine and set_source() generate the same wrapper, the same conversions for every type class both support, and that '
                'verify() takes or checks the whole layout from the compiler; the macros both texts use are the same export slots (C03 R5); not decided: the '
                'generic engine (dlopen/libffi, as ABI mode), global variables and constants, call results on concrete arguments')
-    for rule, k in (('V1', 12), ('V2', 22), ('V3', 6)):
+    for rule, k in (('V1', 12), ('V2', 22), ('V3', 6), ('V4', 2)):
         run.min_instances(rule, k)
